@@ -282,7 +282,7 @@ pub fn suite_hash(dir: &str, seed: u64, thorough: bool, st: &mut Stats) {
     use bitar::verif::{BuzHash, RollSum, RollingHash};
     let mut rng = Rng::new(seed ^ 0x11);
     let mut out = SuiteOut::new(dir, "hash");
-    let n = if thorough { 1500 } else { 250 };
+    let n = if thorough { 6000 } else { 250 };
     let table = buz_table();
     for i in 0..n {
         let w = if i < 40 { (i % 20 + 1) as usize } else { *rng.pick(&[1usize, 2, 3, 4, 8, 16, 31, 32, 33, 64, 100, 255, 256]) };
@@ -356,7 +356,7 @@ pub fn suite_stream(dir: &str, seed: u64, thorough: bool, st: &mut Stats) {
     let mut out = SuiteOut::new(dir, "stream");
     let mut spec = SuiteOut::new(dir, "stream-spec");
     let table = buz_table();
-    let n = if thorough { 6000 } else { 700 };
+    let n = if thorough { 24000 } else { 700 };
     for _ in 0..n {
         let cfg = gen_cfg(&mut rng, true);
         let len = match rng.below(10) {
@@ -549,7 +549,7 @@ pub fn suite_resync(dir: &str, seed: u64, thorough: bool, st: &mut Stats) {
     // model-side cases: both streams as oneshot cases; the oracle runs on the implementation
     let mut rng = Rng::new(seed ^ 0x44);
     let mut out = SuiteOut::new(dir, "resync");
-    let n = if thorough { 4000 } else { 500 };
+    let n = if thorough { 16000 } else { 500 };
     for _ in 0..n {
         let cfg = gen_cfg(&mut rng, true);
         let (s, kind) = { let l = rng.range(1, 1200) as usize; gen_data(&mut rng, l) };
